@@ -668,7 +668,7 @@ def c07_layers(env):
     ls = tzmon_layers(env)
     ls.append(miri_layer(env, 0.002))
     if not env.quick():
-        ls.append(fuzz_layer(env, "file", 120, seeds_dir=os.path.join(env.corpus, "zoneinfo", "blobs")))
+        ls.append(fuzz_layer(env, "file", int(os.environ.get("VERIF_FUZZ_SECONDS", "120")), seeds_dir=os.path.join(env.corpus, "zoneinfo", "blobs")))
         ls.append(fuzz_layer(env, "string", 60, max_len=96))
         ls.append(valgrind_layer(env, 0.02))
     return ls
@@ -678,7 +678,7 @@ def c08_layers(env):
     ls = tzmon_layers(env)
     ls.append(miri_layer(env, 0.002))
     if not env.quick():
-        ls.append(fuzz_layer(env, "file", 120, seeds_dir=os.path.join(env.corpus, "zoneinfo", "blobs")))
+        ls.append(fuzz_layer(env, "file", int(os.environ.get("VERIF_FUZZ_SECONDS", "120")), seeds_dir=os.path.join(env.corpus, "zoneinfo", "blobs")))
     return ls
 
 
@@ -686,7 +686,7 @@ def c09_layers(env):
     ls = tzmon_layers(env)
     ls.append(miri_layer(env, 0.002))
     if not env.quick():
-        ls.append(fuzz_layer(env, "string", 120, max_len=96))
+        ls.append(fuzz_layer(env, "string", int(os.environ.get("VERIF_FUZZ_SECONDS", "120")), max_len=96))
     return ls
 
 
